@@ -53,55 +53,55 @@ Section Typesafe.
         injection H as <- _. cbn [cf_fields]. rewrite Hs, bytes_eqb_refl, (Hch _ _ _ _ _ Hc), orb_true_r. cbn [andb]. eauto.
   Qed.
 
-  Ltac scalar_case H :=
-    apply scalar_typesafe in H; cbn [conforms_b kind_ok];
-    match goal with |- context [match ?t with _ => _ end] => destruct t end; try exact H; try discriminate H; reflexivity.
+  Ltac scalar_case Hc tt :=
+    apply scalar_typesafe in Hc; cbn [conforms_b kind_ok];
+    destruct tt; try exact Hc; try discriminate Hc; try reflexivity.
 
   Theorem typesafe_all : forall n, typesafe n.
   Proof.
-    induction n using node_ind'; intros parent path tns t e H.
-    - rewrite complete_obj_eq in H. rewrite conforms_obj_eq. cbv zeta in *.
-      destruct unres; [discriminate H|].
+    induction n using node_ind'; intros parent path tns t e Hcm.
+    - rewrite complete_obj_eq in Hcm. rewrite conforms_obj_eq. cbv zeta in *.
+      destruct unres; [discriminate Hcm|].
       destruct (get_path p parent) as [x|] eqn:Hg;
         [destruct x as [| b | raw | s | items | m]|];
-        try discriminate H;
-        try (destruct nl; [injection H as <- _; reflexivity | discriminate H]).
+        try discriminate Hcm;
+        try (destruct nl; [injection Hcm as <- _; reflexivity | discriminate Hcm]).
       destruct (tn_bad ty poss (typename_of (JObj m))) eqn:Htb.
-      + destruct nl; [injection H as <- _; reflexivity | discriminate H].
+      + destruct nl; [injection Hcm as <- _; reflexivity | discriminate Hcm].
       + destruct (comp_fields deny (JObj m) (push_names path p) (typename_of (JObj m) :: tns)
                               (typename_of (JObj m)) fields) as [[l|] e0] eqn:Hcf.
-        * injection H as <- _. cbn [negb andb]. eapply fields_typesafe; eauto.
-        * destruct nl; cbn [andb] in H; [|discriminate H].
-          destruct p; [discriminate H|]. injection H as <- _. reflexivity.
-    - rewrite complete_arr_eq in H. rewrite conforms_arr_eq.
+        * injection Hcm as <- _. cbn [negb andb]. eapply fields_typesafe; eauto.
+        * destruct nl; cbn [andb] in Hcm; [|discriminate Hcm].
+          destruct p; [discriminate Hcm|]. injection Hcm as <- _. reflexivity.
+    - rewrite complete_arr_eq in Hcm. rewrite conforms_arr_eq.
       destruct (get_path p parent) as [x|] eqn:Hg;
         [destruct x as [| b | raw | s | items | m]|];
-        try discriminate H;
-        try (destruct nl; [injection H as <- _; reflexivity | discriminate H]).
+        try discriminate Hcm;
+        try (destruct nl; [injection Hcm as <- _; reflexivity | discriminate Hcm]).
       destruct (comp_items deny n (push_names path p) tns items 0) as [[l|] e0] eqn:Hci.
-      + injection H as <- _. eapply items_typesafe; eauto.
-      + destruct nl; cbn [andb] in H; [|discriminate H].
-        destruct p; [discriminate H|]. injection H as <- _. reflexivity.
-    - cbn [complete] in H. scalar_case H.
-    - cbn [complete] in H. scalar_case H.
-    - cbn [complete] in H. scalar_case H.
-    - cbn [complete] in H. scalar_case H.
-    - cbn [complete] in H. scalar_case H.
-    - cbn [complete] in H. scalar_case H.
-    - cbn [complete] in H. cbn [conforms_b].
+      + injection Hcm as <- _. eapply items_typesafe; eauto.
+      + destruct nl; cbn [andb] in Hcm; [|discriminate Hcm].
+        destruct p; [discriminate Hcm|]. injection Hcm as <- _. reflexivity.
+    - cbn [complete] in Hcm. scalar_case Hcm t.
+    - cbn [complete] in Hcm. scalar_case Hcm t.
+    - cbn [complete] in Hcm. scalar_case Hcm t.
+    - cbn [complete] in Hcm. scalar_case Hcm t.
+    - cbn [complete] in Hcm. scalar_case Hcm t.
+    - cbn [complete] in Hcm. scalar_case Hcm t.
+    - cbn [complete] in Hcm. cbn [conforms_b].
       destruct (get_path p parent) as [x|] eqn:Hg;
         [destruct x as [| b | raw | s | items | m]|];
-        try discriminate H;
-        try (destruct nl; [injection H as <- _; reflexivity | discriminate H]).
-      destruct (mem_bytes s vs) eqn:Hv; cbn [negb] in H.
+        try discriminate Hcm;
+        try (destruct nl; [injection Hcm as <- _; reflexivity | discriminate Hcm]).
+      destruct (mem_bytes s vs) eqn:Hv; cbn [negb] in Hcm.
       + destruct (mem_bytes s inacc) eqn:Hi.
-        * destruct nl; [injection H as <- _; reflexivity | discriminate H].
-        * injection H as <- _. rewrite Hv, Hi. reflexivity.
-      + destruct nl; [injection H as <- _; reflexivity | discriminate H].
-    - injection H as <- _. reflexivity.
-    - injection H as <- _. cbn [conforms_b]. apply bytes_eqb_refl.
-    - injection H as <- _. reflexivity.
-    - injection H as <- _. reflexivity.
+        * destruct nl; [injection Hcm as <- _; reflexivity | discriminate Hcm].
+        * injection Hcm as <- _. rewrite Hv, Hi. reflexivity.
+      + destruct nl; [injection Hcm as <- _; reflexivity | discriminate Hcm].
+    - injection Hcm as <- _. reflexivity.
+    - injection Hcm as <- _. cbn [conforms_b]. apply bytes_eqb_refl.
+    - injection Hcm as <- _. reflexivity.
+    - injection Hcm as <- _. reflexivity.
   Qed.
 
   Theorem complete_typesafe_lemma : forall root data t,
